@@ -64,3 +64,15 @@ Definition init_enabled (taken : list name) (n : ncls) : list name :=
 (* which generated methods document nested-attribute keywords at all *)
 Definition takes_nested (m : mkind) : bool :=
   match m with MTopReset | MReset | MElemWithout _ => false | _ => true end.
+
+(* where the value of a keyword handed to the constructor of a spec class (directly,
+   or through the nested-attribute keywords of a helper) has to end up: in the
+   attribute of that name, or -- for a keyword covered by the ** catch-all -- in
+   the overflow attribute's dictionary under that name *)
+Inductive place := PAttr | POverflow.
+Definition lands (n : ncls) (k : name) : option place :=
+  if existsb (fun a => String.eqb (n_name a) k && n_init a
+                       && match n_overflow n with Some o => negb (String.eqb k o) | None => true end)
+             (n_attrs n)
+  then Some PAttr
+  else match active_overflow n with Some _ => Some POverflow | None => None end.
